@@ -8,6 +8,7 @@ import (
 	"os"
 	"strconv"
 	"strings"
+	"time"
 
 	"github.com/markusressel/fan2go/internal"
 	"github.com/markusressel/fan2go/internal/configuration"
@@ -70,14 +71,25 @@ func init() {
 			s.SetMovingAvg(a.f64("avg", 0))
 			w.sensor = s
 			configuration.CurrentConfig.TempRollingWindowSize = a.int("win", 10)
+			configuration.CurrentConfig.TempSensorPollingRate = 200 * time.Millisecond
 			curSensor = w
 			return "ok avg=" + fmtF(s.GetMovingAvg())
 		case "sn.poll":
 			w := curSensor
+			if now := a.int("now", 0); now != 0 {
+				verifhook.SetClock(int64(now)) // time between polls: regular ticks and long gaps (outage, suspend)
+			}
 			if w.kind == "cmd" {
 				out, _ := base64.StdEncoding.DecodeString(a.str("out", ""))
 				_ = os.WriteFile(w.dir+"/out.txt", out, 0644)
 				_ = os.WriteFile(w.dir+"/code.txt", []byte(strconv.Itoa(a.int("exit", 0))), 0644)
+				// start=0: the (root-owned, not group/other-writable) script has lost its exec bits: it passes the
+				// permission check but cannot be started
+				if a.int("start", 1) == 0 {
+					_ = os.Chmod(w.dir+"/sensor.sh", 0644)
+				} else {
+					_ = os.Chmod(w.dir+"/sensor.sh", 0755)
+				}
 			} else {
 				rd := a.str("read", "ok:0")
 				switch {
